@@ -83,5 +83,21 @@ PROPS["C14"] = dict(
     assumptions=["schedule perturbation (Gosched/sleep in Required) explores interleavings of the 10 traversal goroutines only probabilistically"],
 )
 
+PROPS["C10"] = dict(
+    pkg="c10",
+    subs=[
+        dict(name="out", test="TestOut", quick=8000, thorough=400000, shards=8),
+        dict(name="in", test="TestIn", quick=8000, thorough=400000, shards=8),
+    ],
+    technique="rapid-generated data trees and JSON texts; round trip and differential against Go encoding/json (token stream, UseNumber)",
+    level_text="exploration: ground-truth data trees (adversarial string/number pools, depth 3) rendered as CUE by an independent renderer or through ctx.Encode, marshalled by three JSON paths and read back with encoding/json; JSON texts with every escape spelling, whitespace kind, number spelling, deep nesting, duplicate keys, lone surrogates and one-step invalid mutations decoded by three CUE paths and compared with encoding/json's reading.",
+    level_note="trusted: Go encoding/json as the reference reader/validator; dgen's independent CUE renderer (letters/digits verbatim, everything else \\u escapes); the cue.Value accessor API used to read decoded data",
+    rule="out: tree from dgen (YAML/CUE-hostile string pool, number pool around 2^53/2^63/2^64/10^34/huge exponents) -> CUE value (source text or ctx.Encode) -> MarshalJSON / json.Marshal(v) / builtin json.Marshal -> encoding/json must read the same keys (declaration order), strings, exact numbers. "
+         "in: JSON text of a tree with random escape spellings and whitespace (+ classes deep, duplicate-keys, lone-surrogate, mutated) -> json.Extract / json.NewDecoder / builtin json.Unmarshal must equal encoding/json's reading and re-marshal equivalently; invalid text must be rejected; json.Valid must agree with encoding/json.Valid. "
+         "Non-trivial = tree has depth >= 3, a string with a control/non-ASCII/quote/backslash character, or a number with exponent or more than 17 characters; mutated-invalid texts count as non-trivial.",
+    assumptions=["duplicate conflicting keys and lone surrogate escapes are accepted as either an error or encoding/json's reading (RFC 8259 leaves them unspecified)",
+                 "object keys are NFC-normalised by construction (known finding F10)"],
+)
+
 NOT_APPLICABLE = {}
 HOOK_COMMITS = []
